@@ -9,9 +9,38 @@ mod metadata;
 pub mod type_props;
 pub mod variant_props;
 
-use proc_macro2::Span;
+use proc_macro2::{Delimiter, Group, Span, TokenStream, TokenTree};
 use quote::ToTokens;
 use syn::spanned::Spanned;
+
+/// Copies an expression, turning every invisible (`Delimiter::None`) group that holds more
+/// than one token into a parenthesised one. A `macro_rules!` fragment such as `$x:expr`
+/// reaches a derive wrapped in an invisible group, and rustc ignores those groups when it
+/// parses the output of a proc macro: `$x * 2` with `$x = 1 + 2` would be read back as
+/// `1 + 2 * 2`.
+pub fn with_visible_groups(expr: &impl ToTokens) -> TokenStream {
+    fn walk(tokens: TokenStream) -> TokenStream {
+        tokens
+            .into_iter()
+            .map(|tree| match tree {
+                TokenTree::Group(group) => {
+                    let inner = walk(group.stream());
+                    let delimiter = match group.delimiter() {
+                        Delimiter::None if inner.clone().into_iter().count() > 1 => {
+                            Delimiter::Parenthesis
+                        }
+                        other => other,
+                    };
+                    let mut copy = Group::new(delimiter, inner);
+                    copy.set_span(group.span());
+                    TokenTree::Group(copy)
+                }
+                other => other,
+            })
+            .collect()
+    }
+    walk(expr.to_token_stream())
+}
 
 pub fn missing_parse_err_attr_error() -> syn::Error {
     syn::Error::new(
